@@ -147,4 +147,28 @@ def nCheck (s : NState) : Option String :=
   else if !s.panicked && !s.stack.isEmpty then some "borrow-left"
   else none
 
+/-! ### Spec: FIFO discipline of the wake queue with nesting (wave 3) -/
+
+/-- the task a trace event pops from the wake queue: every `Task::poll` call — entering the future, the no-op
+    on an emptied slot, the recursion guard — is preceded by exactly one `pop_front` of `Executor::step` -/
+def popOf : NEv → Option Nat
+  | .enter t => some t
+  | .noop t => some t
+  | .guard t => some t
+  | _ => none
+
+/-- the tasks popped by a piece of trace, in order (top-level and nested steps alike) -/
+def popsOf (evs : List NEv) : List Nat := evs.filterMap popOf
+
+/-- "lets no woken task be starved", decidable form printed by the driver for every top-level step: the queue
+    before the step is a prefix of (tasks popped during the step, nested pops included) ++ (queue after it) —
+    nothing was taken from anywhere but the front, nothing was put anywhere but the back -/
+def nFifoB (s s' : NState) : Bool :=
+  s.queue.isPrefixOf (popsOf (s'.log.drop s.log.length) ++ s'.queue)
+
+/-- "never loses a wake-up", decidable form printed by the driver after every top-level step: unless the guard has
+    panicked, every unfinished task is in the wake queue (so a stalled run loop means every task completed) -/
+def nLiveB (s : NState) : Bool :=
+  s.panicked || (List.range s.ntasks).all fun x => (s.fut x).isNone || s.queue.contains x
+
 end YashModel.Executor.Nested
